@@ -24,6 +24,11 @@ pub struct PipeState {
     pub werr_idx: usize,
     pub reads: usize,
     pub writes: usize,
+    /// when set: a read that finds nothing pending fails with this kind (a socket with a read timeout whose
+    /// peer went silent) instead of reporting end of stream
+    pub stall: Option<std::io::ErrorKind>,
+    /// cap for every write once the write schedule is exhausted (0: unbounded)
+    pub wcap: usize,
 }
 
 pub type Responder = Box<dyn FnMut(&[u8]) -> Vec<u8>>;
@@ -41,6 +46,7 @@ impl Pipe {
     }
     pub fn with_wsched(self, w: Vec<Option<usize>>) -> Self { self.0.borrow_mut().wsched = w; self }
     pub fn with_werr(self, k: Vec<std::io::ErrorKind>) -> Self { self.0.borrow_mut().werr = k; self }
+    pub fn with_stall(self, k: std::io::ErrorKind) -> Self { self.0.borrow_mut().stall = Some(k); self }
     pub fn set_responder(&self, r: Responder) { *self.1.borrow_mut() = Some(r); }
     pub fn clear_responder(&self) { *self.1.borrow_mut() = None; }
     pub fn left(&self) -> Vec<u8> { let s = self.0.borrow(); s.inbox[s.pos..].to_vec() }
@@ -71,6 +77,7 @@ impl Read for Pipe {
         } else if s.rcap > 0 { cap = cap.min(s.rcap); }
         s.ridx += 1;
         let avail = s.inbox.len() - s.pos;
+        if avail == 0 && !buf.is_empty() { if let Some(k) = s.stall { return Err(io::Error::new(k, "stalled")); } }
         let n = cap.min(avail);
         let p = s.pos;
         buf[..n].copy_from_slice(&s.inbox[p..p + n]);
@@ -83,7 +90,7 @@ impl Write for Pipe {
     fn write(&mut self, buf: &[u8]) -> io::Result<usize> {
         let mut s = self.0.borrow_mut();
         s.writes += 1;
-        let act = if s.widx < s.wsched.len() { s.wsched[s.widx] } else { Some(usize::MAX) };
+        let act = if s.widx < s.wsched.len() { s.wsched[s.widx] } else if s.wcap > 0 { Some(s.wcap) } else { Some(usize::MAX) };
         s.widx += 1;
         match act {
             None => { let k = if s.werr_idx < s.werr.len() { s.werr[s.werr_idx] } else { io::ErrorKind::BrokenPipe }; s.werr_idx += 1; Err(io::Error::new(k, "injected")) }
